@@ -17,7 +17,7 @@ UNITS += [CK.unit_distinct_count_init(), CK.unit_audit_first_token(), CK.unit_au
 UNITS += [IF.unit_add_field_format()]
 from contracts import tools as TL
 UNITS += [TL.unit_validated_python_name(), TL.unit_generated_tokens()]
-UNITS += [IF.unit_cid_init()]
+UNITS += [IF.unit_cid_init(), IF.unit_create_name_to_class_map()]
 UNITS += [FL.unit_set_example()]
 from contracts import ranges_init as RI, structure as ST
 UNITS += RI.units_range_init(shapes=[(1, 1, 1)], props=("C01", "C09"))
